@@ -16,7 +16,7 @@ import os
 
 import numpy as np
 
-from dst import kernel, sandbox as sbx, seams
+from dst import kernel, sandbox as sbx, seams, runner
 from dst.kernel import Sim, SimKill, HarnessError, stream, canon, digest, H
 
 PROP = 'C12'
@@ -155,7 +155,13 @@ def sibling_spec(rng, spec):
     rr = spec['ranges'] if isinstance(spec['ranges'], list) \
         else [spec['ranges']]
     for r in rr:
-        kind = rng.choice(['noise', 'rate', 'decoder', 'deform'])
+        kind = rng.choice(['noise', 'rate', 'decoder', 'deform',
+                           'rate_eps'])
+        if kind == 'rate_eps':
+            # an error rate that differs in the ninth digit is a different
+            # simulation
+            r['error_rate'] = [p + 1e-9 for p in r['error_rate']]
+            continue
         if kind == 'noise':
             for nz in r['error_model']['parameters']:
                 d = rng.choice([d for d in DIRECTIONS
@@ -183,6 +189,55 @@ def sibling_spec(rng, spec):
     return spec
 
 
+_ident_memo = {}
+
+
+def spec_identities(spec):
+    """Identities of the simulations a spec expands to, computed with real
+    panqec objects (so that list / dict parameter forms and defaults are
+    compared the way panqec compares them)."""
+    k = canon(spec)
+    if k not in _ident_memo:
+        from panqec.simulation import read_input_dict
+        import contextlib
+        import io
+        with contextlib.redirect_stdout(io.StringIO()):
+            b = read_input_dict(json.loads(k), '/nonexistent/out.json',
+                                verbose=False)
+        _ident_memo[k] = [seams.identity_of(s.code, s.error_model, s.decoder,
+                                            s.error_rate) for s in b]
+        if len(_ident_memo) > 5000:
+            _ident_memo.clear()
+    return _ident_memo[k]
+
+
+def without_duplicates(spec):
+    """A specification that lists the same (code, noise, decoder, rate)
+    twice is a user error outside the property; the generator never emits
+    one.  Duplicates are removed by rewriting the spec in explicit 'runs'
+    form."""
+    ids = spec_identities(spec)
+    if len(set(ids)) == len(ids):
+        return spec
+    runs = _spec_runs(spec)
+    if len(runs) != len(ids):
+        # expansion order differs from ours: fall back to pairwise test
+        keep, seen = [], set()
+        for r in runs:
+            i = spec_identities({'runs': [r]})[0]
+            if i not in seen:
+                seen.add(i)
+                keep.append(r)
+        return {'runs': keep}
+    keep, seen = [], set()
+    for r in runs:
+        i = spec_identities({'runs': [r]})[0]
+        if i not in seen:
+            seen.add(i)
+            keep.append(r)
+    return {'runs': keep}
+
+
 def gen_workload(seed):
     """Fault-free skeleton of a plan: 2-5 incarnations with non-decreasing
     targets on one output file."""
@@ -201,6 +256,7 @@ def gen_workload(seed):
     spec = gen_spec(rng)
     if tiny:
         spec = {'runs': _spec_runs(spec)[:rng.choice([1, 2])]}
+    spec = without_duplicates(spec)
     target = rng.randint(1, 3) if tiny else rng.randint(1, 5)
     steps = []
     for i in range(n_inc):
@@ -208,10 +264,11 @@ def gen_workload(seed):
         if i > 0:
             r = rng.random()
             if r < 0.3:
-                spec = grow_spec(rng, spec)
+                spec = without_duplicates(grow_spec(rng, spec))
             elif r < 0.45 and i < n_inc - 1:
                 # excursion to a sibling spec, then back
-                steps.append({'op': 'run', 'spec': sibling_spec(rng, spec),
+                steps.append({'op': 'run', 'spec': without_duplicates(
+                                  sibling_spec(rng, spec)),
                               'target': target, 'mode': 'new',
                               'fault': None})
             target += rng.choice([0, 0, 1, 2, 3])
@@ -444,7 +501,7 @@ class Exec:
 
         self.sb.durable_hook = hook
         self.sb.install()
-        seams.install_entropy()
+        seams.install_entropy(sim.seed)
         seams.install_clock(sim.clock)
         self.ledger.install()
         bsm.BatchSimulation.__init__ = cap_init
@@ -647,8 +704,13 @@ class Exec:
         }
 
 
-def execute(plan, record_lines=False, keep_events=False):
+def execute_here(plan, record_lines=False, keep_events=False):
     return Exec(plan, record_lines, keep_events).run()
+
+
+def execute(plan, **kw):
+    """One plan = one simulated process image: run in a forked child."""
+    return runner.isolated(execute_here, plan, **kw)
 
 
 def _tree_bytes(root):
